@@ -8,15 +8,17 @@ mbt/parsers.py and compares field by field with what TLC emitted."""
 import json
 import math
 import os
+import pathlib
 import random
 
 import numpy as np
 
-from .. import core, motlutil, parsers
+from .. import argguard, core, motlutil, parsers
 from ..motlutil import FIELDS
 
 HOLE = 1000000          # wire code of the missing value (EmMotlIO.tla HoleCode)
-PROPS = ["C01_FileLayout", "C01_RoundTrip", "C01_OrderIrrelevantStep", "C01_PathsAgree"]
+PROPS = ["C01_FileLayout", "C01_RoundTrip", "C01_OrderIrrelevantStep", "C01_PathsAgree", "C01_WriteKeepsTable",
+         "C01_ResultsPersist"]
 INVS = ["TypeOK", "C01_OrderIrrelevant", "C01_Idempotent"]
 ALL_OPS = ["swap", "write_motl", "write_emmotl", "load", "adopt", "droprow", "duprows"]
 ALL_HDR = ["absent", "none", "empty", "other"]
@@ -26,13 +28,18 @@ IO_OPS = ["write_motl", "write_emmotl", "load"]
 # beyond 2^24, negative; every one finite and inside the float32 range (the quantifier)
 POOL = [0.1, -2.7, 1.0 / 3.0, 16777217.0, -16777219.0, 3.4e38, -3.4e38, 1.0e-40, -2.5e-42, 1.17549435e-38, 123456.789,
         -0.000123456789, 2147483649.0, 1.0000000596046448, 65504.5, 359.99999999, -179.5, 7.0, 1.0, -1.0, 255.0,
-        1e10, 5e-324 + 1e-30, 299792458.123]
+        1e10, 5e-324 + 1e-30, 299792458.123, 1e-9, -1e-9, -1e-30, 2147483648.0, 4294967297.0, 9007199254740992.0,
+        16777216.0, 33554433.0]
+INT_POOL = [16777217, 16777216, 33554433, 2147483649, 4294967297, 2 ** 40 + 1, 2 ** 53 - 1, 0 - 16777219, 1, 2, 3, 255, 256, 257,
+            32768, 65535]
 
 
 def cfg(canon, init, ops, pos, depth, mode, writer="byname", emit=False, invs=True, props=PROPS, view=True, hdrs=ALL_HDR,
-        route=False):
+        route=False, pfs=("str",), tss=("emmotl",), lts=("omitted",)):
     lines = ["SPECIFICATION Spec", "CONSTANTS", " Canon <- %s" % canon, " InitTables <- %s" % init,
              " Ops = {%s}" % ", ".join('"%s"' % o for o in ops), " HdrSet = {%s}" % ", ".join('"%s"' % h for h in hdrs),
+             " PfSet = {%s}" % ", ".join('"%s"' % x for x in pfs), " TsSet = {%s}" % ", ".join('"%s"' % x for x in tss),
+             " LtSet = {%s}" % ", ".join('"%s"' % x for x in lts),
              " SwapPos <- %s" % pos, " MaxDepth = %d" % depth,
              ' EmitMode = "%s"' % mode, ' Writer = "%s"' % writer]
     if invs:
@@ -50,17 +57,25 @@ def cfg(canon, init, ops, pos, depth, mode, writer="byname", emit=False, invs=Tr
 
 
 # ---- interpretation gamma ------------------------------------------------------------------------
-def token_values(vseed, ntok):
-    """token id -> float64; distinct tokens have distinct, non-zero float32 images."""
+def token_values(vseed, ntok, int_tokens=(), zero_tokens=()):
+    """token id -> float64; distinct tokens have distinct, non-zero float32 images.  int_tokens get integer values
+    (identifiers, also beyond 2^24 and 2^31); zero_tokens are 0.0 / -0.0 (an all-zero row; no distinctness there)."""
     rng = random.Random(vseed)
     pool = POOL[:]
     rng.shuffle(pool)
+    ipool = INT_POOL[:]
+    rng.shuffle(ipool)
     vals = {}
     seen = {0.0}
     for t in range(1, ntok + 1):
+        if t in zero_tokens:
+            vals[t] = 0.0 if t % 2 else -0.0
+            continue
         while True:
             u = rng.random()
-            if pool and u < 0.35:
+            if t in int_tokens:
+                v = float(ipool.pop()) if ipool and u < 0.5 else float(rng.randint(1, 5000))
+            elif pool and u < 0.35:
                 v = pool.pop()
             elif u < 0.55:
                 v = float(rng.randint(-5000, 5000)) + rng.choice([0.0, 0.5, 0.25])
@@ -111,7 +126,12 @@ def build_df(tbl, vals, variant):
     import pandas as pd
     order = list(tbl["order"])
     rows = [[interp(w, vals) for w in r] for r in tbl["cells"]]
-    how = variant % 3
+    how = variant % 4
+    if how == 3:
+        # a Fortran-ordered, read-only block (a view handed on from elsewhere)
+        block = np.asfortranarray(np.array(rows, dtype=float).reshape(len(rows), len(order)))
+        block.setflags(write=False)
+        return pd.DataFrame(block, columns=order, copy=False)
     if how == 0:
         return pd.DataFrame({name: [row[i] for row in rows] for i, name in enumerate(order)})
     if how == 1:
@@ -128,7 +148,7 @@ def build_table(tbl, vals, variant):
     # k is kept in 0..3: only the row-label modes of the helper.  Its int64 identifier-column mode (k // 4 odd) is not
     # used here - C01 quantifies over float64 tables, and the token values include integer-valued floats beyond the
     # int64 range (e.g. 9e30), which that mode would overflow.
-    return motlutil.vary_index(build_df(tbl, vals, variant), (variant // 3) % 4)
+    return motlutil.vary_index(build_df(tbl, vals, variant), (variant // 4) % 4)
 
 
 def order_class(order):
@@ -226,27 +246,40 @@ def header_arg(op, path, variant):
         os.remove(other)
 
 
-def do_write(op, df, path, variant=0):
+def path_arg(op, path):
+    """the file-name argument in the form the op names: str or pathlib.Path"""
+    return pathlib.Path(path) if op.get("pf", "str") == "path" else path
+
+
+def do_write(op, df, path, variant=0, hdr=None):
     from cryocat import cryomotl
     opname = op["name"]
+    where = path_arg(op, path)
     if opname == "write_motl":
-        cryomotl.Motl(df).write_out(path, "emmotl")
+        ts = op.get("ts", "emmotl")
+        if ts == "emmotl" and variant % 2:
+            cryomotl.Motl(df).write_out(where)                     # motl_type defaults to "emmotl"
+        else:
+            cryomotl.Motl(df).write_out(where, ts)
     elif op.get("hdr", "absent") != "absent":
-        cryomotl.EmMotl(df, header=header_arg(op, path, variant)).write_out(path)
+        cryomotl.EmMotl(df, header=hdr).write_out(where)
     elif variant % 4 == 3:
         # the list acquires its table (with its missing values) after construction
         m = cryomotl.EmMotl()
         m.df = df
-        m.write_out(path)
+        m.write_out(where)
     else:
-        cryomotl.EmMotl(df).write_out(path)
+        cryomotl.EmMotl(df).write_out(where)
 
 
-def do_load(path, variant):
+def do_load(path, variant, op=None):
     from cryocat import cryomotl
-    if variant % 2 == 0:
-        return cryomotl.Motl.load(path)
-    return cryomotl.Motl.load(path, "emmotl")
+    op = op or {}
+    where = path_arg(op, path)
+    lt = op.get("lt", "omitted" if variant % 2 == 0 else "emmotl")
+    if lt == "omitted":
+        return cryomotl.EmMotl(where) if variant % 3 == 0 else cryomotl.Motl.load(where)
+    return cryomotl.Motl.load(where, "emmotl")
 
 
 def tmp_path(ctx, tag):
@@ -254,38 +287,114 @@ def tmp_path(ctx, tag):
     return os.path.join(d, "m_%s_%d.em" % (tag, os.getpid()))
 
 
+def other_calls(path, variant):
+    """Dimension 'call history': unrelated public calls of the module between the call under test and the inspection of
+    its result - another list (other N, other column order) is built, written through the other path, loaded again."""
+    import pandas as pd
+    from cryocat import cryomotl
+    n = 1 + variant % 3
+    cols = FIELDS[::-1] if variant % 2 else sorted(FIELDS)
+    df = pd.DataFrame({c: [float(7 * k + i) + 0.5 for k in range(n)] for i, c in enumerate(cols)})
+    other = path + ".aside.em"
+    try:
+        if variant % 2:
+            cryomotl.Motl(df).write_out(other, "emmotl")
+        else:
+            cryomotl.EmMotl(df).write_out(other)
+        cryomotl.Motl.load(other)
+        cryomotl.EmMotl.read_in(other)
+        cryomotl.Motl.create_empty_motl_df()
+    finally:
+        if os.path.exists(other):
+            os.remove(other)
+
+
+def special_tokens(tbl, variant):
+    """(integer-valued tokens, zero tokens) of this case: identifier columns hold integers in a share of the cases,
+    one row is all zero in another share"""
+    ints, zeros = set(), set()
+    order = list(tbl["order"])
+    if variant % 5 == 4:
+        for row in tbl["cells"]:
+            for i, w in enumerate(row):
+                if order[i] in motlutil.ID_COLUMNS and w != HOLE and w != 0:
+                    ints.add(abs(w))
+    if variant % 11 == 0 and tbl["cells"]:
+        zeros = {abs(w) for w in tbl["cells"][variant % len(tbl["cells"])] if w != HOLE and w != 0}
+    return ints, zeros
+
+
 def run_transition(ctx, tr, variant, vseed):
     """One stateless implementation test per transition TLC emitted."""
     op = tr["op"]["name"]
     case = {"kind": "transition", "pre": tr["pre"], "op": tr["op"], "post": tr["post"], "variant": variant,
             "vseed": vseed}
-    vals = token_values(vseed, max(ntokens(tr["pre"]), ntokens(tr["post"])))
+    ints, zeros = special_tokens(tr["pre"]["tbl"], variant) if "tbl" in tr["pre"] else (set(), set())
+    vals = token_values(vseed, max(ntokens(tr["pre"]), ntokens(tr["post"])), ints, zeros)
     path = tmp_path(ctx, "tr")
-    if os.path.exists(path):
-        os.remove(path)
+    path2 = path + ".second.em"
+    for f in (path, path2):
+        if os.path.exists(f):
+            os.remove(f)
     if op in ("write_motl", "write_emmotl"):
         tbl = tr["pre"]["tbl"]
-        sig = {"op": op, "order": order_class(tbl["order"])}
+        sig = {"op": op, "order": order_class(tbl["order"]), "pf": tr["op"].get("pf", "str")}
         df = build_table(tbl, vals, variant)
+        if ints:
+            df = motlutil.int_ids(df)                   # identifier columns stored as int64
+        hdr = None
         if tr["op"].get("hdr", "absent") != "absent":
             sig["hdr"] = tr["op"]["hdr"]
-        _, err = core.call_guarded(do_write, tr["op"], df, path, variant)
+            hdr = header_arg(tr["op"], path, variant)
+        guard = argguard.Guard(table=df, header=hdr)
+        _, err = core.call_guarded(do_write, tr["op"], df, path, variant, hdr)
         if err is not None:
             ctx.fail("call_raises", "%s: %s" % (tr["op"], err), case, sig)
         else:
-            check_file(ctx, path, tr["post"]["disk"], vals, case, sig)
+            if variant % 3 == 1:
+                _, err2 = core.call_guarded(other_calls, path, variant)
+                if err2 is not None:
+                    ctx.fail("call_raises", "interleaved write / load of another list: %s" % err2, case, {"op": "aside"})
+            ok = check_file(ctx, path, tr["post"]["disk"], vals, case, sig)
+            why = guard.changed()
+            if why:
+                ctx.fail("C01_WriteKeepsTable", "the call changed its argument - %s" % why, case, dict(sig, argument_modified=True))
+            elif ok and variant % 2 == 0:
+                # the very same table object written once more, through the other path: the same document (PathsAgree)
+                op2 = dict(tr["op"], name="write_emmotl" if op == "write_motl" else "write_motl", hdr="absent",
+                           ts="na" if op == "write_motl" else "emmotl")
+                _, err = core.call_guarded(do_write, op2, df, path2, variant // 2)
+                sig2 = dict(sig, op=op2["name"], second_call=True)
+                if err is not None:
+                    ctx.fail("call_raises", "second write of the same table object (%s): %s" % (op2["name"], err), case, sig2)
+                elif check_file(ctx, path2, tr["post"]["disk"], vals, case, sig2):
+                    why = guard.changed()
+                    if why:
+                        ctx.fail("C01_WriteKeepsTable", "the second call changed its argument - %s" % why, case, sig2)
     elif op == "load":
         disk = tr["pre"]["disk"]
-        sig = {"op": "load"}
+        sig = {"op": "load", "pf": tr["op"].get("pf", "str")}
         # the file is produced by the independent writer, so the reader is tested on its own
         parsers.write_em(path, tuple(disk["dims"]), "float32", [interp(w, vals) for w in disk["payload"]])
-        m, err = core.call_guarded(do_load, path, variant)
+        m, err = core.call_guarded(do_load, path, variant, tr["op"])
         if err is not None:
             ctx.fail("call_raises", "load: %s" % err, case, sig)
-        else:
-            check_table(ctx, m.df, tr["post"]["mem"], vals, case, sig, "C01_RoundTrip")
+        elif check_table(ctx, m.df, tr["post"]["mem"], vals, case, sig, "C01_RoundTrip") and variant % 3 != 2:
+            # result persistence: another list (other N) is loaded / other calls are made, then the first result is
+            # inspected again
+            n2 = disk["dims"][1] % 3 + 1
+            parsers.write_em(path2, (20, n2, 1), "float32", [float(q % 17) - 4.25 for q in range(20 * n2)])
+            core.call_guarded(do_load, path2, variant + 1, tr["op"])
+            if variant % 3 == 1:
+                _, err2 = core.call_guarded(other_calls, path, variant)
+                if err2 is not None:
+                    ctx.fail("call_raises", "interleaved write / load of another list: %s" % err2, case, {"op": "aside"})
+            check_table(ctx, m.df, tr["post"]["mem"], vals, case, dict(sig, reinspected=True), "C01_ResultsPersist")
     else:
         raise core.MachineryError("unexpected transition %r" % (tr["op"],))
+    for f in (path, path2):
+        if os.path.exists(f):
+            os.remove(f)
     ctx.ran(case)
 
 
@@ -343,26 +452,31 @@ def run_behaviour(ctx, hist, variant, vseed):
             hdr = st["op"].get("hdr", "absent")
             if hdr != "absent":
                 sig["hdr"] = hdr
+            guard = argguard.Guard(table=motl.df)
             if op == "write_emmotl" and hdr != "absent":
-                _, err = core.call_guarded(lambda: cryomotl.EmMotl(motl.df, header=header_arg(st["op"], path, variant + i)).write_out(path))
+                _, err = core.call_guarded(lambda: cryomotl.EmMotl(motl.df, header=header_arg(st["op"], path, variant + i)).write_out(path_arg(st["op"], path)))
             elif op == "write_emmotl" and isinstance(motl, cryomotl.EmMotl):
                 # the loaded (and possibly filtered / extended) object writes itself
-                _, err = core.call_guarded(lambda: motl.write_out(path))
+                _, err = core.call_guarded(lambda: motl.write_out(path_arg(st["op"], path)))
             elif op == "write_motl" and type(motl) is cryomotl.Motl:
-                _, err = core.call_guarded(lambda: motl.write_out(path, "emmotl"))
+                _, err = core.call_guarded(lambda: motl.write_out(path_arg(st["op"], path), st["op"].get("ts", "emmotl")))
             elif op == "write_motl":
                 # a loaded list is an EmMotl, whose write_out takes the path only; the Motl.write_out path of the
                 # property is entered through a Motl built on the same table
-                _, err = core.call_guarded(lambda: cryomotl.Motl(motl.df).write_out(path, "emmotl"))
+                _, err = core.call_guarded(lambda: cryomotl.Motl(motl.df).write_out(path_arg(st["op"], path), st["op"].get("ts", "emmotl")))
             else:
-                _, err = core.call_guarded(lambda: cryomotl.EmMotl(motl.df).write_out(path))
+                _, err = core.call_guarded(lambda: cryomotl.EmMotl(motl.df).write_out(path_arg(st["op"], path)))
             if err is not None:
                 ctx.fail("call_raises", "step %d %s: %s" % (i, st["op"], err), case, sig)
                 break
             if not check_file(ctx, path, post["disk"], vals, case, sig):
                 break
+            why = guard.changed()
+            if why:
+                ctx.fail("C01_WriteKeepsTable", "step %d: writing changed the list - %s" % (i, why), case, dict(sig, argument_modified=True))
+                break
         elif op == "load":
-            loaded, err = core.call_guarded(do_load, path, variant + i)
+            loaded, err = core.call_guarded(do_load, path, variant + i, st["op"])
             if err is not None:
                 ctx.fail("call_raises", "step %d load: %s" % (i, err), case, sig)
                 break
@@ -391,7 +505,7 @@ def recheck_held(ctx, held, now, case):
         same = list(df.columns) == list(snap.columns) and df.shape == snap.shape and \
             np.array_equal(df.to_numpy(dtype=float), snap.to_numpy(dtype=float), equal_nan=True)
         if not same:
-            ctx.fail("C01_RoundTrip", "the list loaded at step %d changed after later calls (inspected before step %d)" % (
+            ctx.fail("C01_ResultsPersist", "the list loaded at step %d changed after later calls (inspected before step %d)" % (
                 step_no, now), case, {"op": "load", "reinspected": True})
             return False
     return True
@@ -411,7 +525,7 @@ def replay(ctx, case):
 
 
 # ---- generators of the inputs handed to TLC ---------------------------------------------------------------------
-def gen_case(rng, nmax, big=False):
+def gen_case(rng, nmax, big=False, n=None):
     order = FIELDS[:]
     u = rng.random()
     if u < 0.04:
@@ -425,7 +539,9 @@ def gen_case(rng, nmax, big=False):
         order[a], order[b] = order[b], order[a]
     else:
         rng.shuffle(order)
-    if big:
+    if n is not None:
+        pass
+    elif big:
         n = rng.randint(100, 400)
     else:
         n = rng.choice([1, 1, 2, 3, 5, rng.randint(1, nmax), rng.randint(1, nmax)])
@@ -433,6 +549,9 @@ def gen_case(rng, nmax, big=False):
     holes = sorted({(rng.randint(1, n), rng.randint(1, 20)) for _ in range(nh)})
     if rng.random() < 0.03:
         holes = [(r, k) for r in range(1, n + 1) for k in range(1, 21)] if n <= 3 else holes    # all missing
+    if rng.random() < 0.12:
+        r = rng.randint(1, n)                   # one particle with every field missing (an all-NaN row)
+        holes = sorted(set(holes) | {(r, k) for k in range(1, 21)})
     return {"order": order, "n": n, "holes": [list(h) for h in holes]}
 
 
@@ -468,7 +587,8 @@ def run(ctx):
     # ---- L1: small scope, exhaustive
     depth = ctx.pick(2, 4)
     if not only or "small" in only:
-        ctx.tlc("MC_EmMotlIO", cfg("Canon4", "SmallInit", ALL_OPS, "AllPos", depth, "none"), name="small", env=env0,
+        ctx.tlc("MC_EmMotlIO", cfg("Canon4", "SmallInit", ALL_OPS, "AllPos", depth, "none", pfs=ctx.pick(("str",), ("str", "path")),
+                                   tss=("emmotl", "EMMOTL"), lts=("omitted", "emmotl")), name="small", env=env0,
                 workers=4)
         ctx.exhaustive["L1_small_depth%d" % depth] = True
         # negative control: a writer that dumps the block positionally must violate the clauses
@@ -483,7 +603,8 @@ def run(ctx):
     # ---- L2: the small scope lifted to the 20 real fields, every transition replayed
     if not only or "lift" in only:
         pl, par = write_params(ctx, "lift", lift_k2=ctx.pick(1, 2))
-        res = ctx.tlc("MC_EmMotlIO", cfg("Canon20", "LiftInit", IO_OPS, "LiftPos", 2, "none", emit=True, hdrs=["absent", "other"]), name="lift",
+        res = ctx.tlc("MC_EmMotlIO", cfg("Canon20", "LiftInit", IO_OPS, "LiftPos", 2, "none", emit=True, hdrs=["absent", "other"],
+                                         pfs=("path",), tss=("EMMOTL",), lts=("emmotl",)), name="lift",
                       env={"C01_PARAMS": pl}, workers=1)
         trs = res.records
         if len(trs) < 1000:
@@ -496,18 +617,25 @@ def run(ctx):
 
     # ---- L2: seeded random 20-field permutations, N up to 50 (thorough: also 100..400)
     if not only or "cases" in only:
-        total = ctx.pick(200, 4000)
-        chunk = ctx.pick(200, 1000)
+        total = ctx.pick(150, 4000)
+        chunk = ctx.pick(150, 1000)
         done = 0
         ci = 0
         while done < total:
             k = min(chunk, total - done)
             cases = [gen_case(ctx.rng, 50) for _ in range(k)]
+            if ci == 0:
+                # exhaustive small sweep: every particle count 1..20 (thorough: 1..64 and the byte boundaries)
+                sweep = list(range(1, ctx.pick(21, 65))) + ctx.pick([], [127, 128, 129, 255, 256, 257])
+                cases = [gen_case(ctx.rng, 50, n=nn) for nn in sweep] + cases[len(sweep):]
             if not ctx.quick and ci == 0:
                 cases += [gen_case(ctx.rng, 50, big=True) for _ in range(12)]
             pc, _ = write_params(ctx, "cases%d" % ci, cases=cases)
             res = ctx.tlc("MC_EmMotlIO", cfg("Canon20", "CaseInit", IO_OPS, "LiftPos", 2, "none", emit=True, invs=False,
-                                             hdrs=["absent", "none", "other"] if ci % 2 else ["absent", "empty", "other"]),
+                                             hdrs=["absent", "none", "other"] if ci % 2 else ["absent", "empty", "other"],
+                                             pfs=("str",) if ci % 2 == 0 else ("path",),
+                                             tss=("emmotl",) if ci % 2 == 0 else ("EmMotl",),
+                                             lts=("omitted",) if ci % 2 == 0 else ("emmotl",)),
                           name="cases%d" % ci, env={"C01_PARAMS": pc}, workers=1)
             if len(res.records) < 2 * len(cases):
                 raise core.MachineryError("cases run emitted %d transitions for %d tables" % (len(res.records), len(cases)))
@@ -522,19 +650,20 @@ def run(ctx):
 
     # ---- L2: behaviours
     if not only or "sim" in only:
-        nsim = ctx.pick(25, 400)
+        nsim = ctx.pick(16, 400)
         sim_cases = [gen_case(ctx.rng, 4) for _ in range(ctx.pick(30, 400))]
         for c in sim_cases:
             if c["n"] > 4:
                 c["n"] = 4
                 c["holes"] = [h for h in c["holes"] if h[0] <= 4]
         ps, _ = write_params(ctx, "sim", sim_cases=sim_cases)
-        res = ctx.tlc("MC_EmMotlIO", cfg("Canon20", "SimInit", ALL_OPS, "SimPos", 8, "hist", invs=False), name="sim",
+        res = ctx.tlc("MC_EmMotlIO", cfg("Canon20", "SimInit", ALL_OPS, "SimPos", 8, "hist", invs=False, pfs=("str", "path"),
+                                         tss=("emmotl", "EMMOTL", "EmMotl"), lts=("omitted", "emmotl")), name="sim",
                       env={"C01_PARAMS": ps}, simulate=nsim, depth=10, seed=ctx.seed + 1, workers=1)
         # the everyday route: load a list, go on with the loaded object, filter / extend it, let it write itself
         # (exhaustive over the seeded small tables: RouteOnly fixes the order of the five calls)
         res2 = ctx.tlc("MC_EmMotlIO", cfg("Canon20", "SimInit", ["write_emmotl", "load", "adopt", "droprow", "duprows"],
-                                          "SimPos", 5, "hist", invs=False, hdrs=["absent"], route=True), name="route",
+                                          "SimPos", 5, "hist", invs=False, hdrs=["absent"], route=True, pfs=("path",)), name="route",
                        env={"C01_PARAMS": ps}, workers=1)
         seen = set()
         nb = 0
